@@ -167,7 +167,13 @@ func c11Read(sk int, recv c11Codec, b []byte) (out V) {
 			out = Ls(I(2))
 		}
 	}()
+	// the receive buffer is the caller's and is reused for the next frame as soon as FastRead returns:
+	// what was decoded must not change with it
+	b = append([]byte(nil), b...)
 	n, err := recv.FastRead(b)
+	for i := range b {
+		b[i] = 0xEE
+	}
 	if err != nil {
 		return Ls(I(1), I(c11ErrCode(sk, err)))
 	}
